@@ -106,6 +106,15 @@ def c13_dense(o):
         # axes now: own physical, parent, then the physical axes of the subtrees
         return np.moveaxis(t, nphys, -1)
     return np.asarray(rec(o.root)) * coeff
+def c13_scale(o):
+    """backward-error scale of the representation: |prefactor| x product of the Frobenius norms of the tensors (an
+    upper bound of the norm of the dense object; gauge changes are exact only up to rounding relative to THIS)"""
+    import numpy as np
+    ts = [np.asarray(mt.array) for mt in o._mp] if hasattr(o, "_mp") else [np.asarray(n.tensor) for n in o.node_list]
+    sc = abs(getattr(o, "coeff", 1))
+    for t in ts:
+        sc = sc * float(np.linalg.norm(t.ravel()))
+    return float(sc)
 '''
 
 exec(DENSE_SRC)
@@ -157,18 +166,21 @@ def snapshot(o):
             snap["slots"].append((f, k, b, repr(b), None, None))
     try:
         snap["dense"] = np.array(c13_dense(o), dtype=complex)
+        snap["scale"] = c13_scale(o)
     except Exception as e:          # an object whose sites are not filled yet
         snap["dense_err"] = repr(e)[:100]
     return snap
 
 
-def same_value(x, y):
+def same_value(x, y, scale=1.0):
+    """1e-12 relative to max(1, |x|_max, representation scale): rounding of a gauge change / fold is relative to the
+    product of the tensor norms, which exceeds the dense norm when the represented vector is a near-cancelling sum"""
     import numpy as np
     if x is None or y is None:
         return x is None and y is None
     if x.shape != y.shape:
         return False
-    sc = max(1.0, float(np.abs(x).max()) if x.size else 1.0)
+    sc = max(1.0, float(np.abs(x).max()) if x.size else 1.0, float(scale or 1.0))
     return bool(np.abs(x - y).max() <= TOL * sc) if x.size else True
 
 
@@ -255,7 +267,7 @@ def run_program(prog, seed):
                 after_dense = np.array(c13_dense(o), dtype=complex)
             except Exception:
                 pass
-            changed = not same_value(before[k]["dense"], after_dense)
+            changed = not same_value(before[k]["dense"], after_dense, before[k].get("scale", 1.0))
             rb, md = diff_obj(before[k], o)
             fields = sorted(set(rb) | set(md))
             if k == tgt:
